@@ -96,6 +96,33 @@ impl<'a> G<'a> {
         let v = if self.abs_only { 15 } else { 23 };
         self.pk(v, IRIS)
     }
+    /// A name (blank node label / variable name) built from the code points at both ends of every
+    /// range of the PN_CHARS_BASE / PN_CHARS_U / PN_CHARS productions; in near-miss mode a code point
+    /// just outside a range may be used. Parser and validator must agree on every one of them.
+    fn name(&mut self) -> String {
+        const FIRST: &[char] = &[
+            'A', 'Z', 'a', 'z', '_', '0', '9', '\u{C0}', '\u{D6}', '\u{D8}', '\u{F6}', '\u{F8}', '\u{2FF}', '\u{370}', '\u{37D}', '\u{37F}', '\u{1FFF}', '\u{200C}', '\u{200D}', '\u{2070}',
+            '\u{218F}', '\u{2C00}', '\u{2FEF}', '\u{3001}', '\u{D7FF}', '\u{F900}', '\u{FDCF}', '\u{FDF0}', '\u{FFFD}', '\u{10000}', '\u{EFFFF}',
+        ];
+        const REST_ONLY: &[char] = &['\u{B7}', '\u{300}', '\u{36F}', '\u{203F}', '\u{2040}'];
+        const OUTSIDE: &[char] = &[
+            '\u{D7}', '\u{F7}', '\u{37E}', '\u{2000}', '\u{200B}', '\u{200E}', '\u{206F}', '\u{2190}', '\u{2BFF}', '\u{2FF0}', '\u{3000}', '\u{E000}', '\u{F8FF}', '\u{FDD0}', '\u{FDEF}', '\u{FFFE}',
+            '\u{F0000}', '\u{B6}', '\u{B8}', '\u{2FF}', '\u{203E}', '\u{2041}', '@', '~', '!',
+        ];
+        let len = 1 + self.n(4);
+        let mut out = String::new();
+        for k in 0..len {
+            let c = if self.wild && self.n(6) == 0 {
+                OUTSIDE[self.n(OUTSIDE.len())]
+            } else if k > 0 && self.n(3) == 0 {
+                REST_ONLY[self.n(REST_ONLY.len())]
+            } else {
+                FIRST[self.n(FIRST.len())]
+            };
+            out.push(c);
+        }
+        out
+    }
     fn spend(&mut self) -> bool {
         self.budget -= 1;
         self.budget > 0 && self.i < self.t.len() + 8
@@ -190,7 +217,12 @@ fn nt_term(g: &mut G, out: &mut String, pos: char, generalized: bool, depth: u32
         }
         4 | 5 if pos != 'p' || generalized || (g.wild && g.chance(1, 3)) => {
             out.push_str("_:");
-            out.push_str(g.pk(16, BNODES));
+            if g.chance(1, 4) {
+                let n = g.name();
+                out.push_str(&n);
+            } else {
+                out.push_str(g.pk(16, BNODES));
+            }
         }
         6 | 7 if pos == 'o' || generalized || (g.wild && g.chance(1, 3)) => {
             out.push('"');
@@ -221,7 +253,15 @@ fn nt_term(g: &mut G, out: &mut String, pos: char, generalized: bool, depth: u32
             ws(g, out);
             out.push_str(">>");
         }
-        10 | 11 => out.push_str(g.pk(5, VARS)),
+        10 | 11 => {
+            if g.chance(1, 3) {
+                let n = g.name();
+                out.push('?');
+                out.push_str(&n);
+            } else {
+                out.push_str(g.pk(5, VARS))
+            }
+        }
         _ => {
             out.push('<');
             out.push_str(g.pick(&IRIS[..5]));
